@@ -60,6 +60,11 @@ def gen(rng, tier):
         eps_push = any(t[1] == c['P']['eps'] and t[4] != c['P']['eps'] for t in c['P']['delta'])
         lim = min(c['limit'], 5) if eps_push else c['limit']
         cases.append({'kind': 'pda', 'X': c['P'], 'limit': lim, 'ns': ([0, 1, 2, 3] if len(c['P']['Sigma']) <= 1 else [0, 1, 2]) if not eps_push else [0, 1, 2][:3 - len(c['P']['Sigma']) + 1]})
+    # letter moves with several target configurations that are reached again through another letter in the same round
+    # (per-configuration word sets of pda_words_up_to_n must not be shared); no epsilon-input moves, so closures are tiny
+    for _ in range(60 if quick else 1500):
+        P = G.fan_pda(rng)
+        cases.append({'kind': 'pda', 'X': P, 'limit': 50, 'ns': [0, 1, 2, 3] if len(P['Sigma']) <= 2 else [0, 1, 2]})
     return cases
 
 
